@@ -46,8 +46,12 @@ def seeded():
 
 def first_line(txt):
     for l in (txt or "").splitlines():
-        l = l.strip()
+        l = l.strip().lstrip("-* ").strip()
         if l and not l.startswith("#"):
+            l = re.sub(r"^\*\*(File / function|Site|File|Where|Change)[^*]*\*\*:?\s*", "", l)
+            l = re.sub(r"^(File / function|Site|File|Where)\s*:\s*", "", l)
+            l = l.replace("**", "").strip()
+            l = re.sub(r"^(File / function|Site|File|Where)\s*:\s*", "", l)
             return l
     return ""
 
@@ -149,9 +153,12 @@ def main():
             continue
         desc = notes.get(m["dir"], {}).get("what") or first_line(m.get("needs", ""))[:160]
         keys = []
-        for pp, d in sorted((m.get("checks") or {}).items()):
-            for k in d.get("violations", [])[:2]:
-                keys.append("%s" % k)
+        own = m["property"]
+        for pp, d in sorted((m.get("checks") or {}).items(), key=lambda kv: (kv[0] != own, kv[0])):
+            for k in d.get("violations", [])[:1]:
+                kk = re.sub(r"<crate::[^|]*?::(\w+) as crate::[^|]*?::(\w+)>", r"<\1 as \2>", k)
+                kk = re.sub(r"crate::(?:\w+::)+(\w+::\w+)", r"\1", kk)
+                keys.append(kk)
         det = m.get("detected_by") or []
         if det:
             caught += 1
